@@ -100,7 +100,7 @@ func init() {
 		}})
 
 	register(&checker{name: "FormData", covers: []string{"NewFormData", "FormData", "File", "Opener", "ErrBadRequest", "ErrRequestEntityTooLarge"}, weight: 1,
-		gen: func(g *G) Args { return g.formSpec() },
+		gen:   func(g *G) Args { return g.formSpec() },
 		check: checkForm})
 }
 
